@@ -207,7 +207,7 @@ static void rec_out(Endpoint* ep, const void* data, int len)
 {
 	const uint8_t* p = (const uint8_t*)data;
 	ep->outbox.emplace_back(p, p + len);
-	emit("out %d %d %016llx %u", ep->id, len, (unsigned long long)fnv64(p, len), len > 0 ? (unsigned)p[len - 1] : 0u);
+	emit("out %d %d %016llx %u %u", ep->id, len, (unsigned long long)fnv64(p, len), len > 0 ? (unsigned)p[len - 1] : 0u, len > 0 ? (unsigned)p[0] : 0u);
 }
 
 static unsigned bunch_flags(const struct utcp_bunch* b)
